@@ -164,6 +164,9 @@ func spreadElements(info *types.Info, body ast.Node, e ast.Expr) ([]ast.Expr, bo
 	if els, ok := builtByAppends(info, body, e); ok {
 		return els, true
 	}
+	if els, ok := chosenByIf(info, body, e); ok {
+		return els, true
+	}
 	if v := VarOf(info, e); v != nil && !v.IsField() {
 		ld := NewLocalDefs(info, body)
 		ds := ld.All(v)
@@ -432,4 +435,86 @@ func builtByAppends(info *types.Info, body ast.Node, e ast.Expr) ([]ast.Expr, bo
 		return nil, false
 	}
 	return out, true
+}
+
+
+// chosenByIf: a rule list held in a local that is nil unless one condition
+// holds: `var r []T; if c { r = []T{…} }`, or `if !c { r = nil } else { r =
+// []T{…} }` (what an inlined helper with an early `return nil` becomes): the
+// list is validation.When(c, …).
+func chosenByIf(info *types.Info, body ast.Node, e ast.Expr) ([]ast.Expr, bool) {
+	v := VarOf(info, e)
+	if v == nil || v.IsField() {
+		return nil, false
+	}
+	ld := NewLocalDefs(info, body)
+	var lit *ast.CompositeLit
+	var litStmt ast.Node
+	for _, d := range ld.All(v) {
+		if d.RHS == nil {
+			if _, isDecl := d.Stmt.(*ast.ValueSpec); isDecl {
+				continue
+			}
+			return nil, false
+		}
+		if IsNil(info, d.RHS) {
+			continue
+		}
+		cl, ok := ast.Unparen(d.RHS).(*ast.CompositeLit)
+		if !ok || lit != nil || d.N != 1 {
+			return nil, false
+		}
+		lit, litStmt = cl, d.Stmt
+	}
+	if lit == nil || litStmt == nil {
+		return nil, false
+	}
+	for _, el := range lit.Elts {
+		if _, isKV := el.(*ast.KeyValueExpr); isKV {
+			return nil, false
+		}
+	}
+	// the if statement one of whose branches is exactly that assignment
+	var cond ast.Expr
+	ast.Inspect(body, func(n ast.Node) bool {
+		is, ok := n.(*ast.IfStmt)
+		if !ok || cond != nil || is.Init != nil {
+			return true
+		}
+		only := func(b *ast.BlockStmt) bool { return b != nil && len(b.List) == 1 && b.List[0] == litStmt }
+		if only(is.Body) {
+			cond = is.Cond
+		} else if eb, ok := is.Else.(*ast.BlockStmt); ok && only(eb) {
+			if u, ok := ast.Unparen(is.Cond).(*ast.UnaryExpr); ok && u.Op == token.NOT {
+				cond = u.X
+			} else {
+				n := &ast.UnaryExpr{Op: token.NOT, OpPos: is.Cond.Pos(), X: is.Cond}
+				info.Types[n] = types.TypeAndValue{Type: types.Typ[types.Bool]}
+				cond = n
+			}
+		}
+		return true
+	})
+	if cond == nil {
+		return nil, false
+	}
+	var when *types.Func
+	for _, o := range info.Uses {
+		if pn, ok := o.(*types.PkgName); ok && pn.Imported().Path() == validationPkg {
+			when, _ = pn.Imported().Scope().Lookup("When").(*types.Func)
+			break
+		}
+	}
+	if when == nil {
+		return nil, false
+	}
+	pos := lit.Pos()
+	sel := &ast.Ident{Name: "When", NamePos: pos}
+	fun := &ast.SelectorExpr{X: &ast.Ident{Name: "validation", NamePos: pos}, Sel: sel}
+	info.Uses[sel] = when
+	call := &ast.CallExpr{Fun: fun, Lparen: pos, Args: append([]ast.Expr{cond}, lit.Elts...), Rparen: lit.End()}
+	if sig, ok := when.Type().(*types.Signature); ok && sig.Results().Len() == 1 {
+		info.Types[call] = types.TypeAndValue{Type: sig.Results().At(0).Type()}
+	}
+	return []ast.Expr{call}, true
 }
